@@ -483,6 +483,8 @@ class Interp:
             bm = self.lib.builtin_method_model(v.cls, "__iter__")
             if bm is not None:
                 return self.iterate(bm(self, v))
+        if isinstance(v, (SNoneT, SInt, SBool)):
+            self.raise_(TypeError, f"'{'NoneType' if isinstance(v, SNoneT) else v.kind}' object is not iterable")   # exact CPython behaviour
         raise Unsupported(f"iteration over {v!r}")
 
     # -- class/attribute machinery ---------------------------------------------------------------
